@@ -63,7 +63,7 @@ def contexts(tier: str):
         out.append(fp.MPFixedContext(-1, rm))
         out.append(fp.MPFixedContext(1, rm))
         if tier == 'thorough':
-            out.append(fp.IEEEContext(5, 11, rm))
+            out.append(fp.IEEEContext(4, 9, rm))        # (a deeper subnormal range leaves TLC's integers no room for the enclosure)
             out.append(fp.MPFixedContext(-9, rm))
             out.append(fp.MPBFloatContext(4, -2, fp.RealFloat(c=15, exp=0), rm))
     return out
@@ -107,14 +107,14 @@ def enclosure(thunk, composed: bool):
     return ('exact' if flo == fhi else 'inexact', flo, fhi)
 
 
-def reduce22(kind, lo: Fraction, hi: Fraction):
+def reduce22(kind, lo: Fraction, hi: Fraction, bits: int = 22):
     """outward reduction to 22 significant bits; returns (kind', lo', hi') or None when outside TLC's range"""
     if lo <= 0 <= hi and lo != hi:
         return None
     m = max(abs(lo), abs(hi))
     e = math.floor(math.log2(m)) if m > 0 else 0
-    k = 21 - e                                   # scale so that the larger end has 22 bits
-    if k > 23 or k < -2:
+    k = bits - 1 - e                             # scale so that the larger end has `bits` bits
+    if k > (23 if bits >= 22 else 20) or k < -2:
         return None
     s = Fraction(2) ** k
     lo2 = Fraction(math.floor(lo * s)) / s
@@ -161,7 +161,7 @@ def record(job):
             j = sp_json(lo, hi)
             loj = hij = j
         else:
-            red = reduce22(kind, lo, hi)
+            red = reduce22(kind, lo, hi, 22 if tier == 'quick' else 19)      # wider targets leave TLC less room
             if red is None:
                 stats['outside-tlc-range'] += 1
                 return
